@@ -72,7 +72,7 @@ def default_scripts(rng, antiparallel=False):
 
 def gen_find_world(rng, max_atoms=48, max_copies=6, families=None, cell_families=None, allow_rotated=False,
                    hints_prob=0.4, decoys=True, min_copies=0, atols=None, noise=True, pattern=None, width_mult=1.0,
-                   no_tight=False):
+                   no_tight=False, noise_div_K=False):
     """A periodic structure with planted copies of a pattern (+ decoys).  Returns a JSON-able spec."""
     family = rng.choice(families or geom.PATTERN_FAMILIES)
     if pattern is None:
@@ -195,7 +195,7 @@ def gen_find_world(rng, max_atoms=48, max_copies=6, families=None, cell_families
             R = geom.rotation_about(v, math.atan2(np.linalg.norm(v), np.dot(u, outward)))
         R = geom.rotation_about(outward, rng.uniform(0, 2 * math.pi)) @ R
         X = (P - P[0]) @ R.T
-        eps = eps_max * 0.5
+        eps = eps_max * 0.5 / (K if noise_div_K else 1.0)
         N = np.array([[rng.gauss(0, 1) for _ in range(3)] for _ in range(n)])
         N = N / np.maximum(np.linalg.norm(N, axis=1, keepdims=True), 1e-12) * eps * np.array([[rng.random()] for _ in range(n)])
         N[0] = 0.0
@@ -223,7 +223,7 @@ def gen_find_world(rng, max_atoms=48, max_copies=6, families=None, cell_families
             X = P @ R.T
             eps = 0.0
             if noise and rng.random() < 0.75 and not (axis_exact and pose == "antiparallel"):
-                eps = eps_max * rng.choice([0.5, 0.45, 0.25, 0.05])
+                eps = eps_max * rng.choice([0.5, 0.45, 0.25, 0.05]) / (K if noise_div_K else 1.0)
                 N = np.array([[rng.gauss(0, 1) for _ in range(3)] for _ in range(n)])
                 N = N / np.maximum(np.linalg.norm(N, axis=1, keepdims=True), 1e-12) * eps * \
                     np.array([[rng.random()] for _ in range(n)])
